@@ -35,7 +35,7 @@ TIMEOUT = {"quick": 900, "thorough": 3600}
 DECIDING = ["history:call_equals_fresh", "history:config_unchanged", "history:args_unchanged", "immut:args_unchanged", "immut:layout_accepted", "repeat:same_arguments_same_result", "repeat:after_inplace_update_equals_fresh",
             "seed:same_seed_same_result", "seed:different_seed_different_result", "repeat:deterministic",
             "styles:identical", "styles:all_calls_ran"]
-MUST_REACH = ["size_variant:1", "size_variant:2", "history:mixed_sizes", "history:fresh_table_from_fresh_processes", "styles:compared", "layout:readonly", "layout:strided"]
+MUST_REACH = ["structure:decoupled", "structure:zero", "size_variant:1", "size_variant:2", "history:mixed_sizes", "history:fresh_table_from_fresh_processes", "styles:compared", "layout:readonly", "layout:strided"]
 
 # ---- (a) histories ---------------------------------------------------------------------------
 
@@ -115,6 +115,11 @@ def cases(tier, seed):
     for lay in gen.LAYOUTS:
         for size in (None, 1, 2, 3, 5):
             out.append({"kind": "immut", "cls": "immut:" + lay, "layout": lay, "size": size, "seed": seed})
+    # structured inputs (decoupled leading entry, diagonal, zero, triangular, integer) drive the rarely taken paths of the routines
+    for structure in ("decoupled", "diagonal", "zero", "triangular", "int"):
+        for size in (None, 2, 5, 6):
+            for lay in ("C", "readonly"):
+                out.append({"kind": "immut", "cls": "immut:structured", "layout": lay, "size": size, "structure": structure, "seed": seed})
     out.append({"kind": "seedfun", "cls": "seedfun", "seed": seed})
     out.append({"kind": "styles", "cls": "styles", "seed": seed})
     return out
@@ -206,18 +211,20 @@ def _history(spec, ctx, R):
 # ---- (b) immutability / layouts ----------------------------------------------------------------
 
 def _immut(spec, ctx, R):
-    lay, size = spec["layout"], spec.get("size")
+    lay, size, structure = spec["layout"], spec.get("size"), spec.get("structure")
     ctx.hit("layout:" + lay)
     ctx.hit(f"size_variant:{size}")
-    base = battery.run_all(R, layout=None, size=size)
-    got = battery.run_all(R, layout=lay, size=size, repeat=True)
-    st = f"size={size}" if size is not None else "size=default"
+    if structure:
+        ctx.hit("structure:" + structure)
+    base = battery.run_all(R, layout=None, size=size, structure=structure)
+    got = battery.run_all(R, layout=lay, size=size, repeat=True, structure=structure)
+    st = (f"size={size}" if size is not None else "size=default") + (f",{structure}" if structure else "")
     for name, rec in got.items():
         b = base[name]
         if b["error"] is not None:
             # the call is not defined for this size variant (e.g. a fixed truncation rank): nothing to judge
             continue
-        ctx.distinct(name, lay, size)
+        ctx.distinct(name, lay, size, structure)
         ctx.check("immut:args_unchanged", not rec["args_changed"], site=name, tags=[lay, st])
         wr = rec["error"] is not None and ("read-only" in rec["error"] or "readonly" in rec["error"] or "WRITEABLE" in rec["error"])
         ctx.check("immut:layout_accepted", rec["error"] is None, site=name, tags=[lay, st] + (["write_attempt_on_readonly_argument"] if wr else []),
